@@ -1977,6 +1977,74 @@ def with_stmt(I, s, frame):
     call_m('__exit__', [None, None, None])
 
 
+class GenContextManager:
+    """what a @contextlib.contextmanager function returns: the generator body runs up to its single `yield` on __enter__ and
+    is resumed (normal exit) or has the exception thrown in at the yield (exceptional exit) on __exit__.  Supported shapes of
+    the generator body:  pre; yield; post   and   pre; try: a; yield; b  finally: f;  post   (handlers around the yield: not)."""
+
+    def __init__(self, I, func, args, kwargs):
+        from . import loader
+        interp = _interp_mod()
+        info = loader.func_info(func)
+        node = info['node']
+        self.frame = interp.Frame(func.__globals__, info['defcls'], None, func)
+        defaults = [I.lift(d) for d in (func.__defaults__ or ())]
+        kwdefaults = {k: I.lift(v) for k, v in (func.__kwdefaults__ or {}).items()}
+        I.bind_args(node.args, self.frame, args, kwargs, defaults, kwdefaults, func.__name__)
+        body = [st for st in node.body if not (isinstance(st, ast.Expr) and isinstance(st.value, ast.Constant))]
+
+        def is_yield(st):
+            return isinstance(st, ast.Expr) and isinstance(st.value, ast.Yield)
+        self.pre, self.rest, self.final, self.post, self.yexpr = None, [], [], [], None
+        for i, st in enumerate(body):
+            if is_yield(st):
+                self.pre, self.post, self.yexpr = body[:i], body[i + 1:], st.value.value
+                break
+            if isinstance(st, ast.Try) and not st.handlers and not st.orelse:
+                js = [j for j, x in enumerate(st.body) if is_yield(x)]
+                if js:
+                    j = js[0]
+                    self.pre, self.rest, self.final, self.post = body[:i] + st.body[:j], st.body[j + 1:], st.finalbody, body[i + 1:]
+                    self.yexpr = st.body[j].value.value
+                    self.pre_outside = body[:i]
+                    break
+        if self.pre is None:
+            raise Unsupported(f'@contextmanager function {func.__qualname__}: yield not at the top level of the body / of a try-finally')
+        if any(isinstance(n, (ast.Yield, ast.YieldFrom)) for st in self.pre + self.rest + self.final + self.post for n in ast.walk(st)):
+            raise Unsupported(f'@contextmanager function {func.__qualname__}: more than one yield')
+        self.in_try = bool(self.final)
+
+    def pyvc_method(self, I, name, args, kw):
+        interp = _interp_mod()
+        if name == '__enter__':
+            if self.in_try:
+                n_out = len(self.pre_outside)
+                I.exec_block(self.pre[:n_out], self.frame)
+                try:
+                    I.exec_block(self.pre[n_out:], self.frame)
+                except interp.PyRaise:
+                    I.exec_block(self.final, self.frame)
+                    raise
+            else:
+                I.exec_block(self.pre, self.frame)
+            return None if self.yexpr is None else I.eval(self.yexpr, self.frame)
+        if name == '__exit__':
+            exc = args[1] if len(args) > 1 else None
+            if exc is None:
+                if self.in_try:
+                    try:
+                        I.exec_block(self.rest, self.frame)
+                    finally:
+                        I.exec_block(self.final, self.frame)
+                I.exec_block(self.post, self.frame)
+                return False
+            # the exception is raised inside the generator at the yield: only a finally clause around it runs
+            if self.in_try:
+                I.exec_block(self.final, self.frame)
+            return False
+        raise Unsupported(f'context manager method {name}')
+
+
 # =========================================================================================== logging
 import logging as _logging
 
